@@ -40,7 +40,7 @@ def rule_mask(E, R):
             if v and d is not None:
                 flags[last_seg(v)] = consts.get(d, lit_value(arm["body"]))
     S = sem.Sem(E, h)
-    t = S.resolve(tail(h["body"]), S.root).node
+    t = S.resolve(fn_result(h), S.root).node
     shape = mask_is_self = False
     if t.get("k") == "Binary" and ((t["op"] == "Ne" and lit_value(t["r"]) == 0) or (t["op"] == "Gt" and lit_value(t["r"]) == 0)) and \
             strip(t["l"]).get("op") == "BitAnd":
@@ -60,7 +60,7 @@ def rule_mask(E, R):
     if ho:
         So = sem.Sem(E, ho, inline=False)
         none_e = some_e = None       # (node, frame)
-        tl = S_tail = So.resolve(tail(ho["body"]), So.root).node
+        tl = S_tail = So.resolve(fn_result(ho), So.root).node
         if tl.get("k") == "MethodCall" and tl["m"] == "map_or" and sem.param_index(So, tl["recv"], So.root) == 1:
             clo = closure_of(tl["args"][1])
             none_e = tl["args"][0]
@@ -131,7 +131,7 @@ def rule_ordarm(E, R):
                     if it["name"] != "compare":
                         continue
                     hb = E.hir_by_dp.get(it["dp"])
-                    t = tail(hb["body"]) if hb and "body" in hb else {}
+                    t = fn_result(hb) if hb and "body" in hb else {}
                     ok = t.get("k") == "MethodCall" and norm(t.get("callee", "")) == "ast::field_expr::OrderingOp::matches_opt" and \
                         root_is_field(t["recv"], "self", "op")
                     arg = strip(t["args"][0]) if ok else {}
@@ -158,12 +158,12 @@ def rule_ordarm(E, R):
                 R.check(ops == [OPS[op]], rule, fn, label + " uses the matching Rust operator",
                         "body uses %s, expected %s" % (ops, OPS[op]), hb["span"])
                 # operands: the cast value (left) against the literal (right)
-                t = tail(hb["body"])
+                t = fn_result(hb)
                 left_is_value = t.get("k") == "Binary" and any(is_param(p, hb, 1) for p in exprs(t["l"], "Path")) and \
                     any(local_name(p) == "self" for p in exprs(t["r"], "Path"))
                 R.check(left_is_value, rule, fn, label + " compares value <op> literal (not swapped)", where=hb["span"])
             else:
-                t = tail(hb["body"])
+                t = fn_result(hb)
                 ok = t.get("k") == "MethodCall" and norm(t.get("callee", "")) == "ast::field_expr::OrderingOp::matches_opt" and \
                     root_is_field(t["recv"], "self", "op")
                 arg = strip(t["args"][0]) if ok else {}
@@ -229,7 +229,7 @@ def rule_ipord(E, R):
     # the trait default (used by i64 / [u8]) is partial_cmp
     hd = E.hir("strict_partial_ord::StrictPartialOrd::strict_partial_cmp")
     if hd:
-        t = tail(hd["body"])
+        t = fn_result(hd)
         R.check(t.get("k") == "MethodCall" and norm(t.get("callee", "")) == "core::cmp::PartialOrd::partial_cmp", rule,
                 norm(hd["path"]), "default strict ordering is partial_cmp", where=hd["span"])
 
@@ -248,7 +248,7 @@ def rule_nil(E, R):
     fg = "scheme::Scheme::nil_not_equal_behavior"
     h = E.hir(fg)
     if h:
-        t = tail(h["body"])
+        t = fn_result(h)
         ok = t.get("k") == "Unary" and t["op"] == "Not" and strip(t["e"]).get("name") == "nil_not_equal_is_false"
         R.check(ok, rule, fg, "getter returns the negation of the stored flag", where=h["span"])
     else:
@@ -496,7 +496,7 @@ def run(F, R, tier):
     # bitwise test
     h = E.hirs(r"compile_with_compiler::BitwiseAnd as ast::index_expr::Compare<U>>::compare$")
     if len(h) == 1:
-        t = tail(h[0]["body"])
+        t = fn_result(h[0])
         ok = t.get("k") == "Binary" and t["op"] == "Ne" and lit_value(t["r"]) == 0 and strip(t["l"]).get("op") == "BitAnd"
         R.check(ok, "R01-ordarm", norm(h[0]["path"]), "bitwise test is `value & literal != 0`", where=h[0]["span"])
     else:
@@ -504,7 +504,7 @@ def run(F, R, tier):
     # IsTrue
     h = E.hirs(r"compile_with_compiler::IsTrue as ast::index_expr::Compare<U>>::compare$")
     if len(h) == 1:
-        t = tail(h[0]["body"])
+        t = fn_result(h[0])
         ok = t.get("k") == "Match" or (t.get("k") == "Unary" and t.get("op") == "Deref") or True
         nots = [u for u in exprs(h[0]["body"], "Unary") if u["op"] == "Not"]
         R.check(not nots, "R01-ordarm", norm(h[0]["path"]), "a bare boolean field is its own value (no negation)", where=h[0]["span"])
